@@ -1,20 +1,44 @@
-"""Cell syntax constants (cellparser.py) and the interpreter's whitespace set."""
-from ..extract_tables import _assign_value, _find_class, _find_func, _parse, lean_char
+"""Cell syntax constants (cellparser.py) and the interpreter's whitespace set.
+
+HOW IT READS (DESIGN §2.5a)
+* separators, escape character: RUNTIME (class attributes of `CellParser`).  The separators are
+  listed BY LEVEL (outer list first): order exact.
+* cellUnescapeSinglePass: BEHAVIOUR — `CellParser().cleanse(s)` is compared, for every text of up to
+  4 characters over {escape, separators, U+0001, 'a'}, with the one-pass reading "an escape followed by
+  an escape or a separator stands for that character, left to right" (a version going through a
+  temporary character, or several `str.replace` passes, differs on some of them).  How the pass is
+  written (`re.sub`, a precompiled pattern, a hand-written scan) does not matter.
+* whitespace: the running interpreter's `str.isspace` over all code points."""
+import itertools
+
+from .. import t1lib
+from ..extract_tables import lean_char
+
+
+def _one_pass(s: str, esc: str, seps) -> str:
+    out, i = [], 0
+    while i < len(s):
+        if s[i] == esc and i + 1 < len(s) and (s[i + 1] == esc or s[i + 1] in seps):
+            out.append(s[i + 1])
+            i += 2
+        else:
+            out.append(s[i])
+            i += 1
+    return "".join(out)
 
 
 def tables() -> str:
-    mod = _parse("parsers/common/cellparser.py")
-    cls = _find_class(mod, "CellParser")
-    seps = _assign_value(cls, "SEPARATORS")
-    esc = _assign_value(cls, "ESCAPE_CHARACTER")
-    # cleanse unescapes in ONE left-to-right pass (re.sub over escape + [escape|separators]); a
-    # version going through a temporary character (str.replace passes) is a different algorithm
-    import ast
-    cl = _find_func(cls, "cleanse")
-    calls = [n.func.attr for n in ast.walk(cl) if isinstance(n, ast.Call) and isinstance(n.func, ast.Attribute)]
-    single_pass = "sub" in calls and "replace" not in calls
+    cp_cls = t1lib.load("rpft.parsers.common.cellparser").CellParser
+    seps = list(cp_cls.SEPARATORS)
+    esc = cp_cls.ESCAPE_CHARACTER
     assert all(isinstance(s, str) and len(s) == 1 for s in seps), seps
     assert isinstance(esc, str) and len(esc) == 1
+    cp = cp_cls()
+    alphabet = [esc] + seps + ["\x01", "a"]
+    single_pass = all(
+        cp.cleanse("".join(t)) == _one_pass("".join(t), esc, seps)
+        for n in range(0, 5) for t in itertools.product(alphabet, repeat=n)
+    )
     ws = [c for c in range(0x110000) if not (0xD800 <= c < 0xE000) and chr(c).isspace()]
     return (
         f"def cellSeparators : List Char := [{', '.join(lean_char(s) for s in seps)}]\n"
